@@ -1225,16 +1225,28 @@ def translate_kernel(repo, spec):
 # --------------------------------------------------------------------------- kernel table
 TAC = "tie_auto"
 KERNELS = {}
+PCORS = {}          # property-level corollaries over several generated kernels (compiled with the combined file)
 
 
 def kernel(pid, **spec):
     KERNELS.setdefault(pid, []).append(spec)
 
 
+def pcorollary(pid, name, stmt, proof, imports=()):
+    PCORS.setdefault(pid, []).append((name, stmt, proof, tuple(imports)))
+
+
+def _is_theory(mod):
+    here = os.path.dirname(os.path.dirname(os.path.abspath(__file__)))
+    return os.path.exists(os.path.join(here, "coq", "theory", mod + ".v"))
+
+
 def emit(repo, pid, out_path):
     """write the generated Coq file for property pid; returns list of per-kernel records"""
     recs = []
     imports = set()
+    for _n, _s, _p, imps in PCORS.get(pid, []):
+        imports |= set(imps)
     chunks = []
     for spec in KERNELS.get(pid, []):
         rec = {"kernel": spec["name"], "kind": spec.get("kind", "function"), "strict": bool(spec.get("strict", True)), "source": "%s::%s" % (spec["file"], spec["func"]) + (" (local %s)" % spec["target"] if spec.get("kind") == "local" else ""),
@@ -1270,10 +1282,13 @@ def emit(repo, pid, out_path):
     head = ("(* GENERATED on every run by harness/srctie.py from /repo's current source — do not edit. *)\n"
             "From Coq Require Import List ZArith Bool Reals Lra Lia ZifyBool Psatz.\n"
             "From QModel Require Import Num %s.\nFrom QTheory Require Import RInst TieLib %s.\nImport ListNotations.\n\n"
-            % (" ".join(sorted(i for i in imports if not i.endswith("T") and not i.endswith("R"))),
-               " ".join(sorted(i for i in imports if i.endswith("T") or i.endswith("R")))))
+            % (" ".join(sorted(i for i in imports if not _is_theory(i))), " ".join(sorted(i for i in imports if _is_theory(i)))))
+    pc = ""
+    if recs and all(r["status"] == "translated" for r in recs):
+        for name, stmt, proof, _ in PCORS.get(pid, []):
+            pc += "Theorem src_%s : %s.\nProof. %s. Qed.\nPrint Assumptions src_%s.\n" % (name, stmt, proof, name)
     with open(out_path, "w") as f:
-        f.write(head + "\n".join(chunks))
+        f.write(head + "\n".join(chunks) + ("\n(* PROPERTY-LEVEL COROLLARIES *)\n" + pc if pc else ""))
     return recs
 
 
@@ -1290,7 +1305,7 @@ def check(repo, pid, scratch, coq_dir, coq_q, thorough=False):
     if any(r["status"] == "translated" for r in recs):
         # compile theorem by theorem: one failing kernel must not hide the others
         text = open(path).read()
-        head, *chunks = re.split(r"(?=^\(\* [^\n]*::)", text, flags=re.M)
+        head, *chunks = re.split(r"(?=^\(\* [^\n]*::)", text.split("\n(* PROPERTY-LEVEL COROLLARIES *)")[0], flags=re.M)
         names = [r for r in recs if r["status"] == "translated"]
         def one_kernel(rc):
             rec, chunk = rc
@@ -1329,6 +1344,12 @@ def check(repo, pid, scratch, coq_dir, coq_q, thorough=False):
                 f.write(text)
         except OSError:
             pass
+    if PCORS.get(pid) and recs and all(r["status"] == "proved" for r in recs):
+        r = subprocess.run(["timeout", "600", "coqc"] + coq_q + ["-Q", gen_dir, "QSrcTie", path], capture_output=True, text=True, cwd=coq_dir)
+        ok = r.returncode == 0
+        res["property_corollaries"] = {"theorems": ["src_" + n for n, _s, _p, _i in PCORS[pid]], "proved": ok}
+        if not ok:
+            res["property_corollaries"]["detail"] = (r.stdout + r.stderr)[-500:]
     if thorough and recs and all(r["status"] == "proved" for r in recs) and os.environ.get("VERIF_COQCHK", "1") == "1":
         # thorough tier: the whole generated file is compiled once more and re-checked by the independent checker
         t1 = time.time()
@@ -1352,3 +1373,8 @@ def check(repo, pid, scratch, coq_dir, coq_q, thorough=False):
 
 from srctie_kernels import register  # noqa: E402  (the kernel table lives in its own file)
 register(kernel)
+try:
+    from srctie_kernels import register_corollaries  # noqa: E402
+    register_corollaries(pcorollary)
+except ImportError:
+    pass
